@@ -437,6 +437,51 @@ fn fam_convert(ctx: &Ctx) {
             let r = u128::from(U128::from_u128(p));
             Out::Val(vec![r as u64, (r >> 64) as u64])
         });
+        // signed primitives: sign extension into every width (two's complement limbs)
+        {
+            let sp = p as i128;
+            let se = |v: i128, n: usize| -> Out {
+                let mut o = vec![if v < 0 { u64::MAX } else { 0 }; n];
+                o[0] = v as u64;
+                if n > 1 {
+                    o[1] = (v >> 64) as u64;
+                }
+                Out::v(&o)
+            };
+            macro_rules! from_signed {
+                ($n:literal) => {{
+                    cs.group();
+                    chk!(cs, concat!("Int<", $n, ">::from_i8"), &se(sp as i8 as i128, $n), Out::v(&w(Int::<$n>::from_i8(sp as i8).as_uint())));
+                    chk!(cs, concat!("Int<", $n, ">:From<i8>"), &se(sp as i8 as i128, $n), Out::v(&w(Int::<$n>::from(sp as i8).as_uint())));
+                    cs.group();
+                    chk!(cs, concat!("Int<", $n, ">::from_i16"), &se(sp as i16 as i128, $n), Out::v(&w(Int::<$n>::from_i16(sp as i16).as_uint())));
+                    chk!(cs, concat!("Int<", $n, ">:From<i16>"), &se(sp as i16 as i128, $n), Out::v(&w(Int::<$n>::from(sp as i16).as_uint())));
+                    cs.group();
+                    chk!(cs, concat!("Int<", $n, ">::from_i32"), &se(sp as i32 as i128, $n), Out::v(&w(Int::<$n>::from_i32(sp as i32).as_uint())));
+                    chk!(cs, concat!("Int<", $n, ">:From<i32>"), &se(sp as i32 as i128, $n), Out::v(&w(Int::<$n>::from(sp as i32).as_uint())));
+                    cs.group();
+                    chk!(cs, concat!("Int<", $n, ">::from_i64"), &se(sp as i64 as i128, $n), Out::v(&w(Int::<$n>::from_i64(sp as i64).as_uint())));
+                    chk!(cs, concat!("Int<", $n, ">:From<i64>"), &se(sp as i64 as i128, $n), Out::v(&w(Int::<$n>::from(sp as i64).as_uint())));
+                }};
+            }
+            macro_rules! from_s128 {
+                ($n:literal) => {{
+                    cs.group();
+                    chk!(cs, concat!("Int<", $n, ">::from_i128"), &se(sp, $n), Out::v(&w(Int::<$n>::from_i128(sp).as_uint())));
+                    chk!(cs, concat!("Int<", $n, ">:From<i128>"), &se(sp, $n), Out::v(&w(Int::<$n>::from(sp).as_uint())));
+                }};
+            }
+            from_signed!(1);
+            from_signed!(2);
+            from_signed!(3);
+            from_signed!(4);
+            from_signed!(8);
+            from_s128!(2);
+            from_s128!(3);
+            from_s128!(4);
+            from_s128!(8);
+            from_s128!(16);
+        }
         // boxed from primitives
         cs.group();
         chk!(cs, "Boxed:From<u8>", &Out::Val(vec![p as u8 as u64]), Out::v(&bw(&BoxedUint::from(p as u8))));
